@@ -8,3 +8,10 @@ open XsVerif.Props.C20
 #print axioms part_is_block
 #print axioms depth_cut_errors
 #print axioms depth_cut_data
+#print axioms getElement_name
+#print axioms sel_chain_matches
+#print axioms findP_sound
+#print axioms paths_agree
+#print axioms paths_agree_star_partial
+#print axioms paths_agree_star_counterexample
+#print axioms findAllP_names
